@@ -36,6 +36,10 @@ pub trait SyncHooks: Sync {
     fn mutex_try_lock(&self, addr: usize) -> bool;
     /// The calling thread released the mutex.
     fn mutex_unlock(&self, addr: usize);
+    /// The calling thread released the mutex while unwinding from a panic
+    /// (called even when [`SyncHooks::active`] is false; must neither block
+    /// nor panic).
+    fn mutex_unlock_unwinding(&self, _addr: usize) {}
 }
 
 /// Hook for the wall clock.
@@ -256,8 +260,12 @@ impl<T> Drop for MutexGuard<'_, T> {
     fn drop(&mut self) {
         // Release the real lock first, then tell the harness.
         self.inner = None;
-        if self.hooked && !std::thread::panicking() {
-            if let Some(hooks) = sync_hooks() {
+        if self.hooked {
+            if std::thread::panicking() {
+                if let Some(hooks) = SYNC_HOOKS.get() {
+                    hooks.mutex_unlock_unwinding(self.addr);
+                }
+            } else if let Some(hooks) = sync_hooks() {
                 hooks.mutex_unlock(self.addr);
             }
         }
